@@ -164,7 +164,7 @@ def line_of(src: str, pos: int) -> int:
     return src.count('\n', 0, pos) + 1
 
 
-def find_range(src: str, m: str, impl_regex: str, fn_name: str, start_re: str, end_re: str):
+def find_range(src: str, m: str, impl_regex: str, fn_name: str, start_re: str, end_re: str, exclusive: bool = False):
     """Inside fn body, the range runs from the start of the first line matching start_re to the end of the
     first line (at or after it) matching end_re, inclusive. Braces inside the range must balance."""
     f = find_fn(src, m, impl_regex, fn_name)
@@ -184,6 +184,10 @@ def find_range(src: str, m: str, impl_regex: str, fn_name: str, start_re: str, e
     if not e_hits:
         raise AnchorError(f'range end /{end_re}/ in fn {fn_name} not found after start')
     ei = e_hits[0]
+    if exclusive:
+        ei -= 1
+        while ei > si and not lines[ei].strip():
+            ei -= 1
     a, b = offs[si], offs[ei] + len(lines[ei])
     seg = m[a:b]
     if seg.count('{') != seg.count('}') or seg.count('(') != seg.count(')'):
